@@ -9,6 +9,7 @@ for d in "${seeds[@]}"; do
   d=${d%/}; case $d in /*) ;; *) d=/verif/$d;; esac; name=$(basename $d); target=${name%-*}
   crates=$(grep '^+++ b/' $d/patch.diff | sed 's|+++ b/||; s|/.*||' | sort -u | tr '\n' ' ')
   checks="$target"
+  [ -n "$MATRIX_TARGET_ONLY" ] && crates=""
   for c in $crates; do case $c in
     sliding_deque) checks="$checks C15 C16";;
     owning_iovec) checks="$checks C03 C05";;
